@@ -46,19 +46,20 @@ class C20(Check):
     lean_targets = ["drv_c20"]
     driver = "drv_c20"
     theorems = ["Pox.C20.ioworker_stream", "Pox.C20.ioworker_drained", "Pox.C20.ioworker_after_fatal", "Pox.C20.ctl_stream",
-                "Pox.C20.ctl_quiescent", "Pox.C20.ctl_after_fatal", "Pox.C20.ctl_no_attempt_after_fatal_defect"]
+                "Pox.C20.ctl_quiescent", "Pox.C20.ctl_after_fatal", "Pox.C20.ctl_no_attempt_after_fatal"]
     anchors = [("pox/lib/ioworker/__init__.py", 127, 142), ("pox/lib/ioworker/__init__.py", 244, 248), ("pox/lib/ioworker/__init__.py", 287, 322),
-               ("pox/openflow/of_01.py", 426, 512), ("pox/openflow/of_01.py", 862, 894)]
+               ("pox/openflow/of_01.py", 426, 516), ("pox/openflow/of_01.py", 868, 900)]
     design_ref = "DESIGN.md §5 C20"
     technique = ("Lean 4 proof: stream invariant over all op sequences (IOWorker) and over all interleavings of a two-actor transition system "
                  "(Connection.send steps / DeferredSender flush steps / environment) + differential correspondence against the real classes with scripted sockets")
     level_text = ("Part A theorems (ioworker_stream/_drained/_after_fatal) hold for every sequence of send/send_fast/loop iterations and every socket-outcome script. "
-                  "Part B theorems (ctl_stream/ctl_quiescent/ctl_after_fatal) hold for every interleaving, at the granularity of the unlocked flag read, the direct write, the locked enqueue, "
+                  "Part B theorems (ctl_stream/ctl_quiescent/ctl_after_fatal/ctl_no_attempt_after_fatal) hold for every interleaving, at the granularity of the unlocked flag read, the direct write, the locked enqueue, "
                   "each sender-thread write and its epilogue, of one connection with the deferred sender, every outcome script and PIPE_BUF. The model is hand-written; each run re-checks it "
                   "against the real RecocoIOLoop/RecocoIOWorker and the real Connection + DeferredSender (thread body driven deterministically) on exhaustive short and random long scripts.")
     level_note = ("Trusted: Lean kernel, standard axioms, hand-written Model/SendPath.lean, scripted socket. Assumed runtime facts: CPython executes each modelled step atomically (GIL), "
-                  "the RLock excludes, a socket that was shut down refuses every write. Real-thread interleavings are NOT executed: the harness runs sequential action sequences (a subset of the "
-                  "interleavings the theorem covers). Known benign race (theorem ctl_no_attempt_after_fatal_defect): one refused write attempt after a fatal error; see DESIGN.md.")
+                  "the RLock excludes, a socket that was shut down refuses every write. Parts A/B run sequential action sequences (a subset of the interleavings the theorems cover); part T runs the real "
+                  "DeferredSender.run on a real second thread under the forced scheduler (harness/forcedthreads.py) and compares its traces with the model. The former race C20-R1 (a refused "
+                  "write attempt after a fatal error) is repaired (fix: commit in /repo); its interleaving stays in the corpus and the full statement is theorem ctl_no_attempt_after_fatal.")
     trusted_base = ["model Model/SendPath.lean hand-written from ioworker/__init__.py and of_01.py Connection.send/DeferredSender; tied by this correspondence run",
                     "other connections abstracted to an environment that can only set/clear the global `sending` flag under the lock"]
     assumptions = ["messages passed to send are non-empty", "GIL atomicity of the modelled steps; RLock mutual exclusion", "send on a shut-down socket fails"]
@@ -93,7 +94,7 @@ class C20(Check):
         for L in range(1, 5):
             for seq in itertools.product(alpha, repeat=L):
                 cases.append({"part": "B", "pb": 2, "ops": list(seq) + [{"op": "flush", "outs": []}, {"op": "flush", "outs": []}]})
-        # the Lean witness `raceActs` (ctl_no_attempt_after_fatal_defect) replayed on the real code: the sender thread's fatal
+        # the Lean regression witness `raceActs` (former finding C20-R1) replayed on the real code: the sender thread's fatal
         # error is interleaved at the log call between Connection.send's `disconnected`/`sending` tests and its deferred enqueue
         cases.append({"part": "B", "pb": 512, "ops": [{"op": "send", "i": 0, "n": 1, "o": 3}, {"op": "send_raced", "i": 1, "n": 1, "outs": [4]},
                                                         {"op": "flush", "outs": [{"o": "accept", "k": 1}]}, {"op": "flush", "outs": []}]})
@@ -306,10 +307,9 @@ class C20(Check):
         if not queued.startswith(acc): return "socket accepted bytes that are not a prefix of the queued stream"
         pend = b"".join(bytes.fromhex(p) for p in obs["pending"])
         if not obs["disc"] and acc + pend != queued: return "live connection: accepted + deferred != queued (lost/duplicated/reordered)"
-        # part T (real threads): a refused write attempt after the fatal error is the known race C20-R1, which the random
-        # schedules reach by themselves; there the model must predict exactly the same number of attempts (correspondence),
-        # the finding itself is reported once, by the deterministic raced-send corpus case
-        if obs["offered_after_disc"] and case["part"] != "T": return "write attempted after a fatal socket error"
+        # all parts, real threads included (theorem ctl_no_attempt_after_fatal; the raced-send interleaving of former finding
+        # C20-R1 is in the corpus and is reached by the random part-T schedules as well)
+        if obs["offered_after_disc"]: return "write attempted after a fatal socket error"
         return None
 
     def finding_key(self, case, obs, failure):
